@@ -10,7 +10,7 @@ def run(ctx):
     rnd = random.Random(ctx.seed)
     q = ctx.quick
     # the spec's decode is total and every executable result can be executed (operand fields present and in range)
-    ctx.mc('MC_Decode', coverage=False)
+    ctx.mc('MC_Decode', constants={'MODES': '{19}' if q else '{16, 19}'}, coverage=False)
     leaves = D.partition('arm', rnd, 20000 if q else 200000)
     words, ngroups = D.select_words(leaves, rnd, leaves_per_group=10 if q else 120, nrand=1 if q else 4,
                                     basis_leaves=1 if q else 6)
